@@ -1,4 +1,5 @@
 import MitmVerif.Model.C15
+import MitmVerif.Model.C15_Classify
 import MitmVerif.Gen.C15
 import Driver.Proto
 open MitmVerif Driver MitmVerif.C15
@@ -37,6 +38,16 @@ def step (line : String) : String :=
     match hexOr p, hexOr r with
     | some pb, some rb => "spec=" ++ b01 (specMatchDns pb rb) ++ " ossl=" ++ b01 (osslMatchDns pb rb)
     | _, _ => "bad-op"
+  | ["cls", h] =>
+    match hexOr h with
+    | none => "bad-op"
+    | some b =>
+      if !isAscii b then "nonascii"
+      else match classifyAscii b with
+        | some (.dns v) => "d:" ++ showBytes v
+        | some (.ip v) => "i:" ++ showBytes v
+        | some (.other _ _) => "other"
+        | none => "x"
   | ["qhs", ins, ssni, csni, addr, cls, chain, sans] =>
     let clsP : Option (Option GName) := if cls = "x" then some none else (parseG cls).map some
     match parseBool ins, parseOptHex ssni, parseOptHex csni, hexOr addr, clsP, parseBool chain, parseList sans with
